@@ -60,10 +60,10 @@ pub assume_specification<'a, T, P: FnMut(&'a T) -> bool> [<core::slice::Iter<'a,
     where core::slice::Iter<'a, T>: Sized
     ensures match r { Some(i) => i < old(it).remaining().len(), None => true };
 // a Rust allocation (hence a slice) occupies at most isize::MAX bytes and a char is 4 bytes wide, so a [char] has at most
-// isize::MAX / 4 < usize::MAX / 2 elements (lex_tabs computes `count * 2`)
+// isize::MAX / 4 <= usize::MAX / 8 elements (lex_tabs computes `count * 2`)
 #[verifier::external_body]
 pub broadcast proof fn axiom_char_slice_bytes(s: &[char])
-    ensures #[trigger] s@.len() * 2 <= usize::MAX {}
+    ensures #[trigger] s@.len() * 8 <= usize::MAX {}
 pub trait CharExt { fn is_english_lingual(&self) -> bool; }
 impl CharExt for char { #[verifier::external_body] fn is_english_lingual(&self) -> bool { unimplemented!() } }
 '''
